@@ -13,7 +13,7 @@ build() { cmake --build _build -j14 --target $* 2>&1 | grep -E "error|FAILED" | 
 run_demo() {  # $1 = seed dir ; returns demo exit code
   local d=$1
   if [ -f $d/demo.sh ]; then
-    sed "s#/tmp/wt_C[0-9]*#$WT#g; s#/tmp/w2_C[0-9]*#$WT#g; s#/tmp/w3_C[0-9]*#$WT#g; s#/tmp/seed3/C[0-9]*#$d#g; s#/tmp/seed_out/C[0-9]*#$d#g; s#/tmp/seed2/C[0-9]*#$d#g" $d/demo.sh > /tmp/confirm_demo.sh
+    sed "s#/tmp/wt_C[0-9]*#$WT#g; s#/tmp/w2_C[0-9]*#$WT#g; s#/tmp/w3_C[0-9]*#$WT#g; s#/tmp/w4_C[0-9]*#$WT#g; s#/tmp/seed4/C[0-9]*#$d#g; s#/tmp/seed3/C[0-9]*#$d#g; s#/tmp/seed_out/C[0-9]*#$d#g; s#/tmp/seed2/C[0-9]*#$d#g" $d/demo.sh > /tmp/confirm_demo.sh
     bash /tmp/confirm_demo.sh $WT/_build/out/stim > $LOG/demo_out.txt 2>&1; return $?
   else
     g++ -std=c++20 -O1 -march=native -I $WT/src $d/demo.cc $WT/_build/out/libstim.a -lpthread -o /tmp/confirm_demo_bin 2> $LOG/demo_build.txt || return 99
